@@ -318,6 +318,9 @@ func compare(st rep.Step, p proj, txset map[string]bool) (string, string) {
 		return "utxo", fmt.Sprintf("unspent outputs: real %v, spec %v", p.Utxo, eu)
 	}
 	for _, a := range []string{"A", "B", "K"} {
+		if _, has := st["addr"+a]; !has {
+			continue // Mempool.tla logs the chain and the UTXO set only
+		}
 		if ea := strList(rep.List(st, "addr"+a)); !eqS(ea, p.Addr[a]) {
 			return "addr-utxo", fmt.Sprintf("per-address UTXO of %s: real %v, spec %v", a, p.Addr[a], ea)
 		}
@@ -351,6 +354,8 @@ func (w *world) ledgerAmount(a string) (common.Fixed64, error) {
 }
 
 var devAbsent int
+var poolMode bool
+var maxPool int
 
 type outcome struct {
 	violations int
@@ -364,6 +369,15 @@ func replayOne(b rep.Behaviour, idx int, opt stack.Options, cacheMode bool) (ok 
 		return false
 	}
 	defer w.n.Close()
+	if poolMode {
+		if d := w.checkSizes(); d != "" {
+			rep.Mismatch(d, nil)
+			return false
+		}
+		if maxPool > 0 {
+			w.n.Pool.VerifSetMaxSize(uint64(maxPool))
+		}
+	}
 	txset := map[string]bool{}
 	for i, st := range b {
 		a := st.Args()
@@ -374,12 +388,19 @@ func replayOne(b rep.Behaviour, idx int, opt stack.Options, cacheMode bool) (ok 
 				return false
 			}
 			continue
-		case "Deliver":
+		case "Deliver", "Submit":
 		default:
 			rep.Mismatch("unknown action "+st.Act(), nil)
 			return false
 		}
+		if st.Act() == "Submit" {
+			if !w.submitStep(b, i, st) {
+				return false
+			}
+			continue
+		}
 		id := rep.Int(a, "id")
+		w.n.Drain()
 		before := w.project()
 		var inMain, orphan bool
 		var perr error
@@ -457,6 +478,16 @@ func replayOne(b rep.Behaviour, idx int, opt stack.Options, cacheMode bool) (ok 
 			rep.Violation(pid+":"+kind+":after-"+why, fmt.Sprintf("after Deliver(%d) [%s]: %s", id, why, d), c)
 			return false
 		}
+		if d := w.compareEvents(st); d != "" {
+			rep.Violation("C12:notification-order:"+why, fmt.Sprintf("after Deliver(%d) [%s]: %s", id, why, d), c)
+			return false
+		}
+		if poolMode {
+			if key, d := w.poolCheck(st); key != "" {
+				rep.Violation(key+":after-deliver-"+why, fmt.Sprintf("after Deliver(%d) [%s]: %s", id, why, d), c)
+				return false
+			}
+		}
 		if cacheMode {
 			if d := w.cacheCheck(); d != "" {
 				rep.Violation("C15:cache:"+strings.SplitN(d, " ", 2)[0], d, c)
@@ -486,7 +517,11 @@ func main() {
 		sn, _ = strconv.Atoi(os.Args[4])
 	}
 	cacheMode := os.Args[1] == "cache"
-	opt := stack.Options{}
+	poolMode = os.Args[1] == "mempool"
+	opt := stack.Options{PoolGlue: poolMode}
+	if poolMode && len(os.Args) >= 6 {
+		maxPool, _ = strconv.Atoi(os.Args[5])
+	}
 	if cacheMode {
 		opt = cacheOptions()
 	}
